@@ -393,6 +393,8 @@ func main() {
 		scens = c11Scenarios(r)
 	case "C05":
 		scens = c05Scenarios(r)
+	case "C20":
+		scens = c20Scenarios(r)
 	default:
 		hx.EngineError("unknown -prop %s", *prop)
 	}
@@ -436,6 +438,9 @@ func main() {
 	sum := hx.ExploreAll(r, scens, true, 0)
 	if sum.Diverged > 0 {
 		hx.EngineError("replay divergence: %s", sum.FirstDiv)
+	}
+	if *prop == "C20" {
+		c20Filter(sum)
 	}
 	viol := hx.ConfirmViolations(sum, scens)
 	cov := sum.Coverage()
